@@ -187,6 +187,11 @@ def num_binop(ex, opn, l, r):
             if opn == 'Mod':
                 return l % r
         except ZeroDivisionError:
+            if (_is_np(l) or _is_np(r)) and opn == 'Div':
+                # numpy scalars do not raise: the result is inf / nan (a warning only); it may not be used afterwards
+                bad = SymScalar(fresh_real('nonfinite'), kind, 'np.float64')
+                bad.poison = True
+                return bad
             raise PyRaise('ZeroDivisionError', 'division by zero')
     a, b = real_expr(l), real_expr(r)
     pt = _result_pytype(l, r)
@@ -302,8 +307,12 @@ def factor_divide(ex, a, b):
     return None
 
 
+class NPInt(int):
+    """a concrete numpy integer scalar (np.prod of a python list, ...): behaves as an int, except that dividing by it never raises"""
+
+
 def _is_np(v):
-    return isinstance(v, SymScalar) and v.pytype.startswith('np.')
+    return isinstance(v, NPInt) or (isinstance(v, SymScalar) and v.pytype.startswith('np.'))
 
 
 def _result_pytype(l, r):
@@ -1777,15 +1786,21 @@ def _np_prod(ex, a, k):
     v = a[0]
     if isinstance(v, STensor):
         raise OutOfSubset('np.prod of an array')
-    items = iterate(ex, v)
+    items = list(iterate(ex, v))
+    nested = [isinstance(x, (tuple, list, I.SSize)) for x in items]
+    if any(nested):
+        # np.prod of a list of equally long tuples ([(m1, n1), (m2, n2), ...]): product over the whole 2-d array
+        if not all(nested) or len({len(x) for x in items}) != 1:
+            raise PyRaise('ValueError', 'setting an array element with a sequence. The requested array has an inhomogeneous shape', origin='numpy')
+        items = [y for x in items for y in x]
+        if any(isinstance(y, (tuple, list)) for y in items):
+            raise OutOfSubset('np.prod of a doubly nested sequence')
     r = 1
     for x in items:
-        if isinstance(x, (tuple, list)):
-            raise OutOfSubset('np.prod of nested sequence')
         r = binop(ex, 'Mult', r, x)
     if is_sym(r):
         return SymScalar(r, 'int', 'np.int64')
-    return r
+    return NPInt(r) if isinstance(r, int) and not isinstance(r, bool) else r
 
 
 @ext('numpy.sqrt')
